@@ -45,7 +45,7 @@ pub enum Error {
     #[error("invalid syntax: () must be quoted")]
     UnquotedNil,
 
-    #[error("vector index {0} out of range of 0..{}", .1 - 1)]
+    #[error("vector index {0} out of range of 0..{}", .1.saturating_sub(1))]
     InvalidVectorIndex(usize, usize),
 
     #[error("string index {0} out of range of 0..{}", .1 - 1)]
